@@ -20,6 +20,52 @@ type hline struct {
 
 func (g *Gen) genC07() {
 	g.exhOneShot("C07", "hl")
+	// whole messages with a values object: every stored header's name / type / value against the text as written
+	// (for the typed kinds the value comes from the value parser)
+	{
+		r := g.r
+		nm := g.budget(600, 20000)
+		for i := 0; i < nm; i++ {
+			ms := r.Msg(MsgOpts{LWS: r.P(60), MixedEOL: r.P(35), Body: 0, CLen: -1, Reply: -1, Sane: true})
+			text := ms.Text
+			hcap := len(ms.Hdrs) + r.N(3)
+			ccap := r.N(6)
+			cuts := r.Cuts(text, len(text))
+			// skip-body mode: a random extra Content-Length must not make the framing wait for a body
+			sess := parseSess(fmt.Sprintf("msg %d %d", hcap, ccap), text, 0, cuts, 1, false, "O")
+			hdrs := ms.Hdrs
+			g.add(Case{Prop: "C07", Desc: "msg-typed-values", Lines: []string{sess}, Check: func(out []string) string {
+				return protect(func() string {
+					m := newMsg(hcap, ccap)
+					bb := []byte(text)
+					var err sipsp.ErrorHdr
+					off := 0
+					for _, c := range cuts {
+						off, err = sipsp.ParseSIPMsg(bb[:c], off, m, 1)
+						if err != sipsp.ErrHdrMoreBytes {
+							break
+						}
+					}
+					if err != 0 {
+						return fmt.Sprintf("well-formed message rejected: %v at %d", err, off)
+					}
+					if m.HL.N != len(hdrs) {
+						return fmt.Sprintf("%d headers reported, the message has %d", m.HL.N, len(hdrs))
+					}
+					for k := range hdrs {
+						h := &m.HL.Hdrs[k]
+						if fget(bb, h.Name) != hdrs[k].Name || int(h.Type) != hdrs[k].Type {
+							return fmt.Sprintf("header #%d: name %q type %d, expected %q type %d", k, fget(bb, h.Name), h.Type, hdrs[k].Name, hdrs[k].Type)
+						}
+						if fget(bb, h.Val) != hdrs[k].Value {
+							return fmt.Sprintf("header #%d (%q): value %q, as written %q", k, hdrs[k].Name, fget(bb, h.Val), hdrs[k].Value)
+						}
+					}
+					return ""
+				})
+			}})
+		}
+	}
 	r := g.r
 	n := g.budget(2500, 80000)
 	for i := 0; i < n; i++ {
